@@ -1,6 +1,7 @@
 mod cfgsweep;
 mod cluster;
 mod codecs;
+mod eqid;
 mod falsify;
 mod gen;
 mod json;
